@@ -634,6 +634,7 @@ class Gen:
         decl_only = it.body_open is None
         info = FnInfo(self.unit, qname, props, trusted, src.path, line_of(src.text, it.decl_start))
         info.rlimit = rlimit
+        info.lost = []
         info.decl_only = decl_only
         info.is_trait_impl = bool(impl and impl[2] and not decl_only)
         info.method = name
@@ -663,7 +664,10 @@ class Gen:
         body2 = n13_hoist_iter_temp(body2, fired)
         for kind, args, slines, tl in sections:
             if kind == 'closure':
-                body2 = n15_closure_contract(body2, int(args[0]), args[1], args[2], [l for (l, _) in slines], fired, qname)
+                try:
+                    body2 = n15_closure_contract(body2, int(args[0]), args[1], args[2], [l for (l, _) in slines], fired, qname)
+                except GenError as e:
+                    info.lost.append('closure %s' % args[0])
         info.sha_after = sha(sig2 + body2)
         info.text_after = sig2 + '\n' + body2
         # --- splice ghost sections into body (line based, never editing executable tokens)
@@ -687,12 +691,14 @@ class Gen:
                 while k > 0 and not bm_lines[k].strip():
                     k -= 1
                 if bm_lines[k].rstrip().endswith((';', '{', '}')) and not bm_lines[k].strip() == '}':
-                    raise GenError('lost anchor: %s has no single-line tail expression' % qname)
+                    info.lost.append('tail expression')
+                    continue
                 inserts.setdefault(k, []).extend(slines)
             elif kind == 'loop':
                 n = int(args[0])
                 if n > len(loops):
-                    raise GenError('lost anchor: %s has %d loops, contract names loop %d' % (qname, len(loops), n))
+                    info.lost.append('loop %d (function has %d loops)' % (n, len(loops)))
+                    continue
                 inserts.setdefault(('loophdr', loops[n - 1]), []).extend(slines)
                 for a in args[1:]:
                     if a.startswith('iter='):
@@ -707,7 +713,8 @@ class Gen:
                 n, pat, where = int(args[0]), args[1], args[2]
                 hits = [k for k, l in enumerate(bm_lines) if pat in body_lines[k] and pat.split('(')[0].strip() in l]
                 if n > len(hits):
-                    raise GenError('lost anchor: %s: %d-th occurrence of %r not found' % (qname, n, pat))
+                    info.lost.append('statement anchor %r #%d' % (pat, n))
+                    continue
                 k = hits[n - 1]
                 if where == 'before':
                     inserts.setdefault(k, []).extend(slines)
